@@ -219,7 +219,10 @@ def user_table(rng, builtin_keys):
             v = pre + tag
         elif r < 0.8:
             ph = ['x', ':hover', '::before', 'a:b', 'http://x.y/z', '-x', '#fc0', '1.5', 'p q', '.c', '!', '0', 'X', '@m']
-            v = rng.choice(['raw %s ${1:%s} body ${2}', '%s${1:%s} {\n\t${2}\n}', 'raw %s ${2:%s} then ${1}', 'raw %s${1:%s}${2:z}']) % (tag, rng.choice(ph))
+            v = rng.choice(['raw %s ${1:%s} body ${2}', '%s${1:%s} {\n\t${2}\n}', 'raw %s ${2:%s} then ${1}', 'raw %s${1:%s}${2:z}',
+                            # a raw multi-declaration snippet that BEGINS like a property with a long vendor-prefixed name (a near miss of the property pattern)
+                            '-webkit-transition-timing-function-%s: ${1:%s}; transition-timing-function: ${2}',
+                            '-webkit-border-bottom-right-radius-%s: ${1:%s}; border-bottom-right-radius: ${1}']) % (tag, rng.choice(ph))
         else:
             v = '@%s {\n\t${0}\n}' % tag
         tbl[k] = v
